@@ -100,15 +100,71 @@ def fft_names(prog):
 
 
 # ------------------------------------------------------------------------- dimension check
+def dim_of(e):
+    """Dimension vector {unit symbol: exponent} of a term by structural recursion; None if the
+    structure does not determine it (e.g. a sum of terms of different dimension)."""
+    if e.is_Symbol:
+        return {e: sp.Integer(1)} if e in UNIT_SYMS else {}
+    if e.is_number or not e.free_symbols & UNIT_SYMS:
+        return {}
+    if e.is_Mul:
+        out = {}
+        for a in e.args:
+            d = dim_of(a)
+            if d is None:
+                return None
+            for k, v in d.items():
+                out[k] = out.get(k, 0) + v
+        return {k: v for k, v in out.items() if v != 0}
+    if e.is_Pow:
+        b, x = e.args
+        d = dim_of(b)
+        if d is None:
+            return None
+        if not d:
+            return {}
+        if x.free_symbols & UNIT_SYMS:
+            return None
+        return {k: v * x for k, v in d.items()}
+    if e.is_Add:
+        ds = [dim_of(a) for a in e.args]
+        if any(d is None for d in ds):
+            return None
+        first = ds[0]
+        for d in ds[1:]:
+            if d != first:
+                return None
+        return first
+    if isinstance(e, sp.Piecewise):
+        ds = [dim_of(a) for a, _ in e.args]
+        if any(d is None for d in ds) or any(d != ds[0] for d in ds):
+            return None
+        return ds[0]
+    if e.func in (sp.Min, sp.Max, sp.Abs, sp.re, sp.im, sp.conjugate, sp.floor, sp.ceiling) and e.args:
+        ds = [dim_of(a) for a in e.args]
+        if any(d is None for d in ds) or any(d != ds[0] for d in ds):
+            return None
+        return ds[0]
+    if isinstance(e, sp.core.function.AppliedUndef) and e.func.__name__ in ("Idx", "Take", "FFT", "IFFT"):
+        return dim_of(e.args[0])
+    return None
+
+
 def dimension_check(ev, expr, unit_expr, what, node):
     ev.dim_checks += 1
+    de, du = dim_of(sp.sympify(expr)), dim_of(sp.sympify(unit_expr))
+    if de is not None and du is not None:
+        if de == du:
+            return None
+        ev.trace.append(("dimension", what, str(de), str(du)))
+        raise DimensionError(f"{what}: quantity of dimension {de or 'dimensionless'} is not convertible to unit "
+                             f"{unit_expr} of dimension {du or 'dimensionless'}")
     try:
         ratio = sp.simplify(expr / unit_expr)
     except Exception:
         ratio = expr / unit_expr
     bad = ratio.free_symbols & UNIT_SYMS
     if bad:
-        # try harder: powsimp/cancel may remove unit symbols
         r2 = sp.powsimp(sp.cancel(sp.expand_power_base(ratio, force=True)), force=True)
         bad = r2.free_symbols & UNIT_SYMS
         if bad:
@@ -311,8 +367,19 @@ def stack_binop(ev, op, a, b, node, fr):
             return a.map(lambda x: x) if False else _stack_like(a, [binop(ev, op, x, y, node, fr) for x, y in zip(a.items, b.items)])
         ev.unsupported("operation between differently stacked arrays", node, fr)
     if isinstance(a, StackV):
-        return _stack_like(a, [binop(ev, op, x, comp(b, i, a.axis), node, fr) for i, x in enumerate(a.items)])
-    return _stack_like(b, [binop(ev, op, comp(a, i, b.axis), y, node, fr) for i, y in enumerate(b.items)])
+        out = _stack_like(a, [binop(ev, op, x, comp(b, i, a.axis), node, fr) for i, x in enumerate(a.items)])
+        other = b
+    else:
+        out = _stack_like(b, [binop(ev, op, comp(a, i, b.axis), y, node, fr) for i, y in enumerate(b.items)])
+        other = a
+    oshape = getattr(other, "shape", None)
+    if oshape is not None and (out.shape is None or len(oshape) > len(out.shape)
+                               or (len(oshape) == len(out.shape) and any(x == 1 and y != 1 for x, y in zip(out.shape, oshape)))):
+        if out.shape is None or len(oshape) != len(out.shape):
+            out.shape = tuple(oshape)
+        else:
+            out.shape = tuple(y if x == 1 else x for x, y in zip(out.shape, oshape))
+    return out
 
 
 def stack_getitem(ev, st, idx, fr, node):
@@ -320,6 +387,10 @@ def stack_getitem(ev, st, idx, fr, node):
     items = idx.items if isinstance(idx, TupleV) else [idx]
     full = lambda i: isinstance(i, SliceV) and all(isinstance(q, NoneV) for q in (i.start, i.stop, i.step))  # noqa: E731
     if all(isinstance(i, NoneV) or full(i) for i in items):
+        if st.shape is not None and any(isinstance(i, NoneV) for i in items):
+            out = st.map(lambda x: x)
+            out.shape = index_shape(ev, st.shape, items)
+            return out
         return st
     ndim = len(st.shape) if st.shape is not None else None
     # expand Ellipsis
@@ -459,8 +530,12 @@ def num_getitem(ev, obj: Num, idx, fr, node):
             return Num(expr, kind=obj.kind, shape=new_shape, axes=new_axes, unit=obj.unit, dtype=obj.dtype,
                        backend=obj.backend)
     # opaque structural subscript
-    if len(items) == 1 and isinstance(items[0], SliceV) and all(isinstance(x, NoneV) for x in (items[0].start, items[0].stop, items[0].step)):
-        return obj
+    _full = lambda i: isinstance(i, SliceV) and all(isinstance(x, NoneV) for x in (i.start, i.stop, i.step))  # noqa: E731
+    if all(_full(i) or isinstance(i, NoneV) for i in items):
+        if all(_full(i) for i in items):
+            return obj
+        shape = index_shape(ev, obj.shape, items) if obj.shape is not None else None
+        return Num(obj.expr, kind=obj.kind, shape=shape, unit=obj.unit, backend=obj.backend, tag=obj.tag, dtype=obj.dtype)
     shape = None
     if obj.shape is not None:
         shape = index_shape(ev, obj.shape, items)
